@@ -75,7 +75,12 @@ fn slack_ns() -> u64 {
 }
 
 fn set_stall_slack(plan: &J) {
-    let extra = plan.get("sim").map_or(0, |s| if s.gu("stall_ppm") > 0 { 3 * s.gu("stall_max_ns") } else { 0 });
+    let mut extra = plan.get("sim").map_or(0, |s| if s.gu("stall_ppm") > 0 { 3 * s.gu("stall_max_ns") } else { 0 });
+    // the PCT strategy may keep a runnable thread waiting for up to 30 000 scheduling points (the
+    // engine's aging limit): that much lateness is the simulator's, twice over (notifier and notified)
+    if plan.get("sim").is_some_and(|s| s.gs("strategy") == "pct") {
+        extra += 2 * 30_000 * plan.get("sim").map_or(1_000, |s| s.gu("delta_ns").max(1));
+    }
     STALL_SLACK_NS.store(extra, std::sync::atomic::Ordering::SeqCst);
 }
 
